@@ -44,7 +44,17 @@ func VerifC09Order() {
 	issued.Add(S)
 	send := func(id, n int) {
 		for k := 0; k < n; k++ {
-			conn.Raw("PRIVMSG #c :s" + vItoa(id) + "-" + vItoa(k))
+			tag := "s" + vItoa(id) + "-" + vItoa(k)
+			switch (id + k) % 4 { // every sender goes through several API methods
+			case 0:
+				conn.Raw("PRIVMSG #c :" + tag)
+			case 1:
+				conn.Pong(tag)
+			case 2:
+				conn.Privmsg("#c", tag)
+			case 3:
+				conn.Notice("#c", tag)
+			}
 			vYield()
 		}
 		issued.Done()
@@ -85,7 +95,15 @@ func VerifC09Order() {
 		}
 		ok := false
 		for id := 0; id < S; id++ {
-			if raw == "PRIVMSG #c :s"+vItoa(id)+"-"+vItoa(next[id])+"\r\n" {
+			tag := "s" + vItoa(id) + "-" + vItoa(next[id])
+			want := "PRIVMSG #c :" + tag
+			switch (id + next[id]) % 4 {
+			case 1:
+				want = "PONG :" + tag
+			case 3:
+				want = "NOTICE #c :" + tag
+			}
+			if raw == want+"\r\n" {
 				next[id]++
 				ok = true
 				break
@@ -111,8 +129,15 @@ func VerifC09Bytes() {
 	n := lens[vLen("len", 0, len(lens)-1)]
 	line := ""
 	if n > 0 {
-		line = vFill(n-1) + vStr("last", 1)
-		vAssume(line[n-1] != '\r' && line[n-1] != '\n')
+		switch vLen("lastkind", 0, 2) {
+		case 0:
+			line = vFill(n-1) + vStr("last", 1)
+			vAssume(line[n-1] != '\r' && line[n-1] != '\n')
+		case 1: // Latin-1 text, not valid UTF-8
+			line = vFill(n-1) + "\xe9"
+		case 2: // a truncated multi-byte sequence in the middle
+			line = "\xe2\x82" + vFill(n-1)
+		}
 	}
 	w := vNewWire()
 	conn := &Conn{cfg: &Config{Flood: true}, out: make(chan string, 4)}
